@@ -14,7 +14,7 @@ PROBES = {
                 ('Assign', '1'), ('New', '01'), ('Alloc', '00'), ('Size', '1'), ('Swap', '1'), ('Help', '0'), ('Size', '0')],
     'ProbeS3': [('Copy', '1'), ('Cast', '1'), ('Cast', '0')],
 }
-LOOKUPS = 'IPMQipmqJKkEHcdgf'
+LOOKUPS = 'IPMQipmqJKkEHUecdgf'
 LIFE = 'NWXY'
 
 def table():
@@ -54,6 +54,7 @@ class Gen:
         ops = [f'{cs("I", "i")} {tid} {ctok}', f'{cs("P", "p")} {tid} {ctok}']
         for k in range(max(arity, 1)):
             if not kf: ops.append(f'{cs("M", "m")} {tid} {ctok} {k}')
+            if not kf and r.random() < 0.25: ops.append(f'e {tid} {ctok} {k}')
             ops.append(f'{cs("Q", "q")} {tid} {ctok} {k}')
         return ops
 
@@ -149,7 +150,8 @@ class Gen:
                 if y < 0.3: lines.append(f'{r.choice("Ii")} {tid} {c[0]}')
                 elif y < 0.45: lines.append(f'{r.choice("Pp")} {tid} {c[0]}')
                 elif y < 0.7 and c[0] != 'b.Terminal': lines.append(f'{r.choice("Mm")} {tid} {c[0]} {r.randrange(max(kmax, 1))}')
-                elif y < 0.85: lines.append(f'{r.choice("Qq")} {tid} {c[0]} {r.randrange(max(kmax, 1))}')
+                elif y < 0.80: lines.append(f'{r.choice("Qq")} {tid} {c[0]} {r.randrange(max(kmax, 1))}')
+                elif y < 0.85 and c[2] != 'Terminal': lines.append(f'e {tid} {c[0]} {r.randrange(max(kmax, 1))}')
                 elif y < 0.89: lines.append(f'R {tid}')
                 elif y < 0.93: lines.append(f'K {tid} {r.choice(tids + [0])}')
                 elif y < 0.94: lines.append(f'K {tid} {tid}')
@@ -237,6 +239,44 @@ class Gen:
             for tok in seen[:6]: lines.append(f'I {tid} {tok}')
             lines.append(f'R {tid}')
             for tok in seen[:3]: lines.append(f'i {tid} {tok}')
+        return Case(name, lines)
+
+    # ---- (11) threaded stress on cold COPIES of records (op U): library types, a static probe, fresh run-time types; every
+    #           thread starts with a different class; declared, absent, cached and same-named twin classes
+    def stress_case(self, name, nthreads, rounds, nlib=4, nrt=4):
+        r = self.rng
+        lines = self.prelude()
+        pool = self.class_pool(lines, 14)
+        pool = [c for c in pool if c[2] != 'Terminal']
+        hot = [c for c in pool if c[2] in self.cached]
+        lines.append('S 1 ProbeS2 ' + ' '.join(f'{c}:{f}' for c, f in PROBES['ProbeS2']))
+        def pick(own_names, k_abs):
+            own = [c[0] for c in pool if c[2] in own_names and c[0].startswith('b.')]
+            twins = [c[0] for c in pool if c[2] in own_names and c[0].startswith('r.')]
+            absent = [c[0] for c in r.sample(pool, min(len(pool), 40)) if c[2] not in own_names][:k_abs]
+            want = own + twins[:3] + absent + [c[0] for c in r.sample(hot, 4)]
+            seen = []
+            for t in want:
+                if t not in seen: seen.append(t)
+            r.shuffle(seen)
+            return seen
+        lines.append(f'U 1 {nthreads} {rounds} {r.randrange(1 << 30)} ' + ' '.join(pick({c for c, f in PROBES['ProbeS2']}, 8)))
+        rich = [nm for nm in self.names if len(self.decl[nm]) >= 5 and nm != 'Terminal']
+        for j, nm in enumerate(r.sample(rich, min(nlib, len(rich)))):
+            tid = 100 + j
+            lines.append(self.bind(tid, nm).rstrip())
+            lines.append(f'U {tid} {nthreads} {rounds} {r.randrange(1 << 30)} ' + ' '.join(pick({c for c, f in self.decl[nm]}, r.choice([4, 8, 16]))))
+        for t in range(nrt):
+            tid = t + 3
+            n = r.choice([1, 3, 8, 16, 16, 30, 40])
+            row = []
+            for i in range(n):
+                c = r.choice(hot) if r.random() < 0.4 else r.choice(pool)
+                it, m = self.item(c); row.append((c, it))
+            lines.append(f'T {tid} ST{tid}_{name} ' + ' '.join(it for c, it in row))
+            lines.append(f'U {tid} {nthreads} {rounds} {r.randrange(1 << 30)} ' + ' '.join(pick({c[2] for c, it in row}, r.choice([2, 6, 12]))))
+            # the original was not touched: the same lookups from the main thread, cold
+            for c, it in row[:4]: lines.append(f'I {tid} {c[0]}')
         return Case(name, lines)
 
     # ---- (5) life cycle of run-time types: construction on every kind of storage, re-construction IN PLACE, del
@@ -721,7 +761,10 @@ class Gen:
 class C08(Spec):
     id = 'C08'; engine = 'disp'; harness = 'h_disp'; driver = 'drv_disp'
     generators = ('Disp',)
-    harness_flags = ('-rdynamic', '-Wl,--wrap=free', '-Wl,--wrap=calloc')
+    # -O0 (after the runner's -O1: the last -O wins): every source-level load and store of the library is a machine-level one.  The
+    # interleaving theorems are about source-level accesses; an optimiser may keep a shared scratch variable in a register and
+    # so hide a race that the plain build of the library has (seed c08_m: invisible at -O1, caught at -O0).
+    harness_flags = ('-rdynamic', '-Wl,--wrap=free', '-Wl,--wrap=calloc', '-O0')
     harness_libs = ('-lpthread', '-lm', '-ldl')
     harness_timeout = 150
     technique = ('Lean 4 proof: invariant-based refinement of the lookup code (cache words, memoised class pointers, two-pass scan) to '
@@ -752,6 +795,7 @@ class C08(Spec):
                   'C08_names_are_texts_partial: a heap with the PROVENANCE of its char* words (XHeap: which caller\'s buffer a __Name cell / a triple name word points into; Type_New with $S(buf) and instances given by their class objects; the caller\'s writes) answers as the value-level history under the executable hypothesis XHeap.quiet (a write hits only buffers nothing points into); without it C08_borrowed_name_refuted (known finding KF-C08-borrowed-name); '
                   'C08_history_independent: type objects named by IDENTITY (an id; at the C level address + generation, C08_identity_is_address_and_generation), created by new(Type, …) at ANY address the allocator answers — a fresh one or the address of any number of deleted type objects — , deleted, reset and USED (the four lookups; calls of the library functions written with method(self, C, M, …) — ClassError or the declared member invoked, C08_call_exact — and of those written with instance(self, C) + member test; type_method): the observations equal specIds of the history with the addresses ERASED, every use answered from the instance list that very object was created with (C08_address_assignment_irrelevant: two histories that differ only in the addresses answer alike); C08_address_keyed_memo_refuted: a call site / lookup function that remembers an instance under the ADDRESS of the receiver\'s type violates it; C08_dispatch_sites: the dispatching functions of src/*.c (read from the source each run) name declared classes and members inside their structs; '
                   'C08_ptr_eq_is_value_eq, C08_heap_construct_is_type_new tie the heap level to the pointer comparison and to the word-level Type_New; '
+                  'C08_shared_stores_current_source / C08_machine_stores / C08_shared_stores_idempotent / C08_interleaving_exact: the stores of the lookup-path functions to anything but automatic locals are EXTRACTED from src/Type.c each run and are exactly the three stores of the step machine (header type word, cls word, cache word), each idempotent and answer-preserving at any later moment; the interleaving theorem is stated for the machine the extracted store list selects (a static-storage name variable read by the by-name pass is one more shared location: C08_shared_name_refuted shows a two-thread schedule that answers Show with the Cmp instance, warm and cold, for that machine); C08_classerror_text / C08_method_text_refines: the texts of the two ClassErrors (formats and argument lists extracted) for every type, class and member name; C08_builtin_cells: Type_Builtin_Name/_Size read the cells Type_New writes; '
                   'C08_null_class; C08_concurrent / C08_concurrent_complete / C08_wait_free: the same '
                   'results under every interleaving of atomic word accesses of any number of threads, every thread completing within 2n+10 own steps per '
                   'lookup; C08_machine_refines_sequential: the step machine run alone computes the sequential functions. All stated for the '
@@ -776,6 +820,7 @@ class C08(Spec):
             'run-time classes), the longer one declared alone, before and after the shorter one; (8) type objects used as CLASSES of other types '
             '(class token t.<tid>): re-constructed under the old name while memoised, renamed / deleted / replaced on the same address after the '
             'memoising records were reset, with lookups through old and new names; NULL as the class on records where the answer is defined; (9) type and class names passed as $S(caller\'s buffer) (name token @b; the buffer filled before its first use and then left alone) next to literal names, class objects and types re-constructed with either kind, the caller writing (op Z) into buffers that no __Name cell and no triple name word points into — the O line of Z lists the cells and triples that point into the buffer, from raw pointer comparison in C and from the provenance tables of the model. '
+            '(11) threaded stress on COLD COPIES (op U): 8 threads released together by a spinning barrier onto a fresh cold copy of the record of a static probe, of library types and of fresh run-time types (the copy with cache and cls words NULL is word for word what Type_New builds; odd rounds with a NULL header type word), every thread starting with a DIFFERENT class (declared, absent, cached, same-named run-time twins) and walking all of them by type_instance / type_implements / type_method, every answer compared with a by-name scan of the raw declaration list taken BEFORE the threads start, then the warm copy rechecked from one thread (answers, cache words, cls words); 40 (quick) / 400 (thorough) rounds per op with fixed seeds; the harness prints how many rounds had really overlapping lookup phases (I stress …); the library is compiled -O0 in this harness so that every source-level access is a machine-level one; (12) op e: the TEXT of the ClassError of type_method_at_offset against the documented texts and the model\'s rendering of the extracted formats; '
             '(10) run-time types created by new_raw(Type, …) while Type_Alloc\'s calloc is served from a LIFO pool of blocks (link-time --wrap=calloc/free; freed blocks poisoned for ASan until re-used), so that a type deleted with del_raw and the next one created land on the SAME ADDRESS as with malloc outside ASan\'s quarantine (the harness verifies the address and prints how often it was recycled: I heap=… recycled=…), or on the harness arena; every non-NULL member of every instance is one of 256 distinct probe functions, so the oracle knows which declaration\'s member ran; the types are used through ~48 dispatching functions of the library (op c: call_with, len, get, iter_next, push, sclose, start, lock, sort_by, look_from, hash, cmp, copy, show_to, … — classes with and without a cache slot), through method / type_method / implements_method call sites compiled into the harness from the Cello.h under test (ops d g f) and through instance / type_instance / method_at_offset: T1 with an instance of class K, a call, T1 deleted, T2 on its address with another instance of K / none / a NULL member / a shadowing first triple / a same-named run-time class, the same call first, then every other entry point; several live types alternating at one call site; '
             'non-trivial = a lookup whose observation is a found instance, an exception, a '
             'cast result or a thread run; distinct = distinct (declared row of the type, op without type number, observation); a re-construction counts by '
@@ -817,6 +862,8 @@ class C08(Spec):
             cs.append(g.reuse_case(f'reuse{boost}_{i}', 8 if quick else 12))
         rc = [g.recycle_case(f'recycle{boost}_{i}', 10 if quick else 16) for i in range((8 if quick else 120) * boost)]
         cs = cs[:1] + rc[:2] + cs[1:] + rc[2:]          # two of them right after the static case: a memo keyed on an address shows early
+        st = [g.stress_case(f'stress{boost}_{i}', 8, 40 if quick else 400) for i in range((3 if quick else 24) * boost)]
+        cs = cs[:1] + st[:1] + cs[1:] + st[1:]          # one of them second: shared scratch state in the lookup path shows early
         for i in range((2 if quick else 20) * boost):
             cs.append(g.prefix_case(f'prefix{boost}_{i}'))
         for i in range((4 if quick else 60) * boost):
@@ -864,6 +911,12 @@ class C08(Spec):
         last_c = {}; after_w = set()
         def bump(k, n=1): acc[k] = acc.get(k, 0) + n
         arena_tids = set(); arena_freed = 0; as_class = set(); names = {}
+        for il in core.lines_with('I stress ', c_out):
+            for kv in il.split(' ')[2:]:
+                kk, _, vv = kv.partition('=')
+                if vv.isdigit():
+                    if kk == 'max-parallel': acc['stress_max_threads_in_their_lookup_phase_at_once'] = max(acc.get('stress_max_threads_in_their_lookup_phase_at_once', 0), int(vv))
+                    else: bump({'ops': 'stress_ops', 'rounds': 'stress_rounds', 'overlapping': 'stress_rounds_with_overlapping_lookup_phases'}.get(kk, kk), int(vv))
         for il in core.lines_with('I heap=', c_out):
             for kv in il.split(' ')[1:]:
                 kk, _, vv = kv.partition('=')
@@ -914,7 +967,7 @@ class C08(Spec):
                 w = o.split(' ')
                 res = w[2] if len(w) > 2 else '?'
                 kind = 'found' if res.startswith('#') else res
-                if t[0] == 'H': kind = 'threads'
+                if t[0] in 'HU': kind = 'threads'
                 if t[0] == 'E': kind = 'badself_' + t[1]
                 acc['res_' + kind] = acc.get('res_' + kind, 0) + 1
                 if ' c=' in o and ' c= ' not in o: acc['obs_with_filled_cache'] = acc.get('obs_with_filled_cache', 0) + 1
